@@ -297,9 +297,71 @@ def run_model(oplines, tag='c03'):
     return C.run_driver(exe, opf, os.path.join(C.BUILD, f'{tag}.model')), ''
 
 
-def classify_unfaithful(op, results, verdicts):
-    """which documented defect an unfaithful copy looks like (only used to label the replay)"""
-    return 'unfaithful copy'
+def classify_unfaithful(op, r):
+    """which documented defect an unfaithful copy looks like (only used to label the violation): F2 if a copied instruction
+    has bytes after its PC-relative field, else F3 if the copy grew, else None"""
+    t = op.split()
+    try:
+        n = int(r.split('n=')[1].split()[0])
+        outlen = len(r.split('out=')[1]) // 2
+    except (IndexError, ValueError):
+        return None
+    pos = 0
+    for it in t[6:]:
+        ln, off, pc = [int(x) for x in it.split(':')[:3]]
+        if pos >= n:
+            break
+        if off > 0 and off + pc < ln:
+            return 'F2: bytes after the PC-relative field dropped'
+        pos += ln
+    if outlen > n:
+        return 'F3: growth by widened branches ignored'
+    return None
+
+
+# ------------------------------------------------------------------ executed layer
+
+EXEC_ZOO = {  # name -> has a stack check (morestack path exists)
+    'S1': False, 'SetX': False, 'CmpX': False, 'S2': True, 'S3': True, 'Leaf': False, 'Load': False, 'Big': True, 'Printer': True,
+    'G': False, 'Fib': True, 'Sq': False, 'Deep': True, 'Mixed': True, 'Tiny': False}
+
+
+def build_exec():
+    ex = os.path.join(C.HARNESS, 'c03', 'exec')
+    extra = dict(C.helper_pkgs())
+    extra['internal/zzverif/c03exec'] = {'exec_test.go': os.path.join(ex, 'exec_test.go')}
+    b, err = C.overlay_build('c03-exec', 'internal/zzverif/c03exec', {}, extra)
+    if b is None:
+        raise C.Infra(f'executed-layer probe does not build against the current tree:\n{err[-3000:]}')
+    return b
+
+
+def run_exec(binary, names, maxdepth, step, tag='c03x'):
+    ops = os.path.join(C.BUILD, f'{tag}.req')
+    outp = os.path.join(C.BUILD, f'{tag}.raw')
+    open(ops, 'w').write(''.join(f'c03.exec {n} {maxdepth} {step}\n' for n in names))
+    rc, log = C.run_probe(binary, 'TestVerifC03Exec', ops, outp, timeout=1500)
+    if rc != 0:
+        raise C.Infra(f'executed-layer probe failed rc={rc}:\n{log[-2000:]}')
+    return list(zip(names, C.read_indexed(outp, len(names))))
+
+
+def exec_oracle(name, obs):
+    """None if calling the placeholder had exactly the effect of the original at every depth, else (why, known-finding key)"""
+    if obs is None:
+        return 'no observation', None
+    if obs.startswith('refused:'):
+        return (None if obs.endswith('clean=true') else ('apply failed but the function no longer behaves as before', None))
+    if not obs.startswith('applied'):
+        return f'calling the origin placeholder: {obs}', None
+    kv = dict(p.split('=') for p in obs.split()[1:])
+    if kv['wrong'] != '0' or kv['cbzero'] != '0' or kv['restored'] != 'true':
+        return f'wrong result / callback not run / not restored: {obs}', None
+    if kv['cbtwice'] != '0':
+        if EXEC_ZOO.get(name):
+            return f'callback ran twice for one call at {kv["cbtwice"]} of {kv["calls"]} stack depths (first at depth {kv["first"]}): {obs}', 'F4-morestack-reentry'
+        return f'callback ran more than once: {obs}', None
+    return None
 
 
 def tramp_check(op, impl_res, cols, model):
@@ -373,14 +435,31 @@ def run(tier):
     # 1. the property on the implementation
     seen = set()
     for k, op, r, v, m in bad:
-        key = v.split('@')[0] + ':' + m.get('name', 'fn').split('-')[0]
+        key = str(classify_unfaithful(op, r)) + ':' + m['kind']
         if key in seen:
             continue
         seen.add(key)
         if len(seen) > 3:
             break
-        out.violation(f'relocated copy is not faithful ({v}) for {m.get("name", "a function of the test binary")}',
-                      {'kind': 'impl-oracle', 'ops': [op], 'observed': r, 'verdict': v, 'how': 'python3 check.py C03 --replay <this file>'})
+        label = classify_unfaithful(op, r)
+        out.violation(f'relocated copy is not faithful ({v}) for {m.get("name", "a function of the test binary")}' + (f' [{label}]' if label else ''),
+                      {'kind': 'impl-oracle', 'ops': [op], 'observed': r, 'verdict': v, 'looks_like': label,
+                       'how': 'python3 check.py C03 --replay <this file>'})
+    # executed layer: real functions mocked through the public API, origin placeholder called at many stack depths
+    xbin = build_exec()
+    maxd, step = (400, 1) if tier == 'quick' else (2000, 1)
+    xres = run_exec(xbin, sorted(EXEC_ZOO), maxd, step)
+    xbad = 0
+    for name, obs in xres:
+        w = exec_oracle(name, obs)
+        if w:
+            why, key = w
+            if key is None:
+                xbad += 1
+            out.violation(f'executed layer, {name}: {why}', {'kind': 'exec', 'exec': [name, maxd, step], 'observed': obs,
+                                                            'how': 'python3 check.py C03 --replay <this file>'}, key=key)
+    stats['exec'] = {n: o for n, o in xres}
+    stats['evaluations'] += sum(int(dict(p.split('=') for p in o.split()[1:]).get('calls', 1)) if o and o.startswith('applied') else 1 for _, o in xres)
     # 2. correspondence / proofs
     if not bad:
         if diffs:
@@ -412,6 +491,12 @@ def run(tier):
 
 
 def replay(body):
+    if body.get('kind') == 'exec':
+        name, maxd, step = body['exec']
+        (n, obs), = run_exec(build_exec(), [name], maxd, step, tag='c03x-replay')
+        w = exec_oracle(n, obs)
+        print(f'c03.exec {name} {maxd} {step}\n  impl  : {obs}\n  oracle: {w[0] if w else "ok"}')
+        return 1 if w else 0
     ops = body.get('ops', [])
     rc = 0
     binary = build_probe()
